@@ -1265,6 +1265,27 @@ def split_rebinds(fn: ast.FunctionDef) -> ast.FunctionDef:
     return new
 
 
+def split_ifexp_assigns(fn: ast.FunctionDef) -> ast.FunctionDef:
+    """`x = A if C else B` (also with tuple targets) reads as `if C: x = A` / `else: x = B`, so that path rules see the condition."""
+    class X(ast.NodeTransformer):
+        def visit_Assign(self, node):
+            if isinstance(node.value, ast.IfExp):
+                a = ast.copy_location(ast.Assign(targets=copy.deepcopy(node.targets), value=node.value.body), node)
+                b = ast.copy_location(ast.Assign(targets=copy.deepcopy(node.targets), value=node.value.orelse), node)
+                ra, rb = self.visit_Assign(a), self.visit_Assign(b)
+                new = ast.If(test=node.value.test, body=ra if isinstance(ra, list) else [ra], orelse=rb if isinstance(rb, list) else [rb])
+                return ast.copy_location(new, node)
+            return node
+
+        def visit_Lambda(self, node):
+            return node
+    new_fn = copy.deepcopy(fn)
+    X().visit(new_fn)
+    ast.fix_missing_locations(new_fn)
+    number(new_fn)
+    return new_fn
+
+
 # ------------------------------------------------------------------------------------ attribution of private helpers
 def _all_functions(tree: ast.AST):
     def rec(node, prefix):
